@@ -68,7 +68,8 @@ static const Fault *consume(const char *call) {
 #define LEAVE W.inside_blocking--
 extern "C" {
 ssize_t vn_send(int fd, const void *b, size_t n, int fl) { const Fault *f = consume("send"); if (f && f->kind == 1) { errno = EINTR; return -1; } if (f && f->kind == 2) { errno = EAGAIN; return -1; } if (f && f->kind == 3 && n > 1) n = (size_t)std::max(1, std::min<int>((int)n - 1, f->arg)); ENTER; ssize_t r = send(fd, b, n, fl); int e = errno; LEAVE; errno = e; return r; }
-ssize_t vn_recv(int fd, void *b, size_t n, int fl) { const Fault *f = consume("recv"); if (f && f->kind == 1) { errno = EINTR; return -1; } if (f && f->kind == 2) { errno = EAGAIN; return -1; } if (f && f->kind == 3 && n > 1) n = (size_t)std::max(1, std::min<int>((int)n - 1, f->arg)); ENTER; ssize_t r = recv(fd, b, n, fl); int e = errno; LEAVE; errno = e; return r; }
+static bool is_dgram(int fd) { int t = 0; socklen_t l = sizeof t; return getsockopt(fd, SOL_SOCKET, SO_TYPE, &t, &l) == 0 && t == SOCK_DGRAM; }
+ssize_t vn_recv(int fd, void *b, size_t n, int fl) { const Fault *f = consume("recv"); if (f && f->kind == 1) { errno = EINTR; return -1; } if (f && f->kind == 2) { errno = EAGAIN; return -1; } if (f && f->kind == 3 && n > 1 && !is_dgram(fd)) n = (size_t)std::max(1, std::min<int>((int)n - 1, f->arg)); /* a short read exists on stream sockets only: a datagram is cut by the caller's length, never by the kernel's mood */ ENTER; ssize_t r = recv(fd, b, n, fl); int e = errno; LEAVE; errno = e; return r; }
 ssize_t vn_sendto(int fd, const void *b, size_t n, int fl, const struct sockaddr *a, socklen_t al) { const Fault *f = consume("sendto"); if (f && f->kind == 1) { errno = EINTR; return -1; } if (f && f->kind == 2) { errno = EAGAIN; return -1; } ENTER; ssize_t r = sendto(fd, b, n, fl, a, al); int e = errno; LEAVE; errno = e; return r; }
 ssize_t vn_recvfrom(int fd, void *b, size_t n, int fl, struct sockaddr *a, socklen_t *al) { const Fault *f = consume("recvfrom"); if (f && f->kind == 1) { errno = EINTR; return -1; } if (f && f->kind == 2) { errno = EAGAIN; return -1; } ENTER; ssize_t r = recvfrom(fd, b, n, fl, a, al); int e = errno; LEAVE; errno = e; return r; }
 int vn_poll(struct pollfd *p, nfds_t n, int t) {
@@ -290,7 +291,10 @@ Outcome run_c09(const Case &c) {
         if (sent.empty() && c.blocking) continue;  // a blocking receive with nothing in flight would only time out (C10 territory)
         char *buf = (char *)malloc(bl); PSocketAddress *from = NULL; PError *err = NULL;
         long faults0 = W.faults_consumed;
-        pssize n = p_socket_receive_from(ls, &from, buf, bl, &err);
+        // every other receive goes through p_socket_receive: on a datagram socket it is the same contract without the sender address
+        bool plain_receive = receives % 2 == 1;
+        if (plain_receive) vl::stats().klass(bl < (sent.empty() ? 0 : sent.front().second) ? "udp_plain_receive_truncating" : "udp_plain_receive");
+        pssize n = plain_receive ? p_socket_receive(ls, buf, bl, &err) : p_socket_receive_from(ls, &from, buf, bl, &err);
         if (W.faults_consumed > faults0 && c.blocking) fault_in_blocking = true;
         receives++;
         if (n < 0) {
@@ -304,7 +308,8 @@ Outcome run_c09(const Case &c) {
         } else {
           // match the received datagram with the oldest outstanding one (loss of older datagrams is tolerated and counted)
           bool matched = false;
-          while (!sent.empty()) {
+          if ((size_t)n > bl) fail("udp-length", string(plain_receive ? "p_socket_receive" : "p_socket_receive_from") + " reported " + std::to_string(n) + " received bytes for a buffer of " + std::to_string(bl) + " (a datagram is cut to the receive buffer length)");
+          while (!sent.empty() && out.verdict.empty()) {
             auto d = sent.front(); sent.pop_front();
             size_t want = std::min(d.second, bl);
             if ((size_t)n == want) { bool same = true; for (size_t i = 0; i < want; i++) if ((unsigned char)buf[i] != pat(100 + (unsigned)d.first, i)) { same = false; break; } if (same) { matched = true; break; } }
@@ -312,8 +317,9 @@ Outcome run_c09(const Case &c) {
             vl::stats().count("udp_datagrams_skipped");
           }
           if (!out.verdict.empty()) { if (from) p_socket_address_free(from); if (err) p_error_free(err); free(buf); break; }
-          if (!matched) fail("udp-datagram", "received datagram (" + std::to_string(n) + " bytes) is not any sent datagram cut to the buffer length " + std::to_string(bl));
-          if (!from) fail("udp-sender", "receive_from did not report the sender address");
+          if (!matched) fail("udp-datagram", string(plain_receive ? "p_socket_receive" : "p_socket_receive_from") + " returned " + std::to_string(n) + " bytes: that is not any sent datagram cut to the buffer length " + std::to_string(bl));
+          if (plain_receive) { /* no sender address in this call */ }
+          else if (!from) fail("udp-sender", "receive_from did not report the sender address");
           else { if (p_socket_address_get_port(from) != rport) fail("udp-sender", "receive_from reported sender port " + std::to_string(p_socket_address_get_port(from)) + ", the sender is bound to " + std::to_string(rport)); pchar *t = p_socket_address_get_address(from); if (!t || strcmp(t, fam == 6 ? "::1" : "127.0.0.1")) fail("udp-sender", "receive_from reported a wrong sender address"); p_free(t); }
         }
         if (from) p_socket_address_free(from); if (err) p_error_free(err); free(buf);
@@ -688,8 +694,12 @@ Outcome run_c19(const Case &c) {
     if (sem) { p_semaphore_take_ownership(sem); p_semaphore_free(sem); } else { p_shm_unlock(shm, NULL); p_shm_take_ownership(shm); p_shm_free(shm); }
   } else if (sc == "ipc_new") {
     string name = uq;
+    // a name left behind by a process that is gone (made with the platform call, value 1): CREATE mode replaces it - under interruptions too
+    string stale = "/" + vi::key13(name + "t_p_sem_object");
+    { sem_t *st = sem_open(stale.c_str(), O_CREAT, 0660, 1); if (st != SEM_FAILED) sem_close(st); else vl::stats().count("ipc_new_stale_name_not_made"); }
     arm(c.plan); if (storm_period) storm.start(storm_period);
-    PError *e1 = NULL, *e2 = NULL, *e3 = NULL;
+    PError *e1 = NULL, *e2 = NULL, *e3 = NULL, *e0 = NULL;
+    PSemaphore *t = p_semaphore_new((name + "t").c_str(), 4, P_SEM_ACCESS_CREATE, &e0);
     PSemaphore *a = p_semaphore_new((name + "s").c_str(), 2, P_SEM_ACCESS_CREATE, &e1);
     PSemaphore *b = p_semaphore_new((name + "s").c_str(), 5, P_SEM_ACCESS_OPEN, &e2);
     PShm *m = p_shm_new((name + "m").c_str(), 128, P_SHM_ACCESS_READWRITE, &e3);
@@ -705,6 +715,13 @@ Outcome run_c19(const Case &c) {
       if (!vi::exists(vi::shm_file(name + "m")) || !vi::exists(vi::shm_lock_file(name + "m"))) fail("ipc-open-existing", "freeing a handle that merely opened the existing segment (under interruptions) removed the segment's names");
     }
     if (e4) p_error_free(e4);
+    if (!t) fail("ipc-create", "p_semaphore_new(CREATE) on a name that already exists failed under interruptions: " + errstr(e0));
+    else {
+      sem_t *pk = sem_open(stale.c_str(), 0); int v = -1; if (pk != SEM_FAILED) { sem_getvalue(pk, &v); sem_close(pk); }
+      if (v != 4) fail("ipc-create", "p_semaphore_new(name, 4, CREATE) on an existing name under interruptions: the name now " + (pk == SEM_FAILED ? string("does not exist") : "carries value " + std::to_string(v)));
+      p_semaphore_take_ownership(t); p_semaphore_free(t);
+    }
+    sem_unlink(stale.c_str()); if (e0) p_error_free(e0);
     if (!a) fail("ipc-create", "p_semaphore_new(CREATE) failed under interruptions: " + errstr(e1));
     if (!b) fail("ipc-create", "p_semaphore_new(OPEN) failed under interruptions: " + errstr(e2));
     if (!m) fail("ipc-create", "p_shm_new failed under interruptions: " + errstr(e3));
@@ -886,7 +903,7 @@ void enumerate(const string &prop, long shard, long nshards) {
     struct Site { const char *scen; const char *call; };
     static const Site sites[] = {{"sleep", "clock_nanosleep"}, {"sem_acquire", "sem_wait"}, {"shm_lock", "sem_wait"}, {"ipc_new", "sem_open"}, {"ipc_new", "shm_open"}, {"tcp", "poll"}, {"tcp", "recv"}, {"tcp", "send"}, {"tcp", "connect"}, {"tcp", "accept"}, {"accept_wait", "poll"}, {"accept_wait", "accept"}, {"accept_wait", "recv"}, {"timed_wait", "poll"}, {"timed_wait", "recv"}};
     for (auto &s : sites)
-      for (int k = 1; k <= 5; k++)
+      for (int k = 1; k <= (string(s.scen) == "ipc_new" ? 9 : 5); k++)
         for (int burst : {1, 3}) {
           if ((idx++ % nshards) != shard) continue;
           Case c; c.prop = "C19"; c.scen = s.scen; c.p1 = 20; c.p2 = 0; c.p3 = k;
@@ -906,7 +923,7 @@ void enumerate(const string &prop, long shard, long nshards) {
         if (string(scen) == "timed_wait_late") { c.scen = "timed_wait"; c.p3 = 1; c.p1 = 60; } else if (string(scen) == "timed_wait") c.p3 = 0;
         exec("storm", c, false);
       }
-    vl::stats().exhaustive["C19_single_EINTR_at_invocation_k<=5_(burst_1|3)_of_every_blocking_call_site"] = true;
+    vl::stats().exhaustive["C19_single_EINTR_at_invocation_k<=5_(burst_1|3)_of_every_blocking_call_site_(k<=9_for_sem_open_and_shm_open)"] = true;
   }
 }
 
